@@ -164,7 +164,7 @@ class Recorder:
 
 def judge(ctx, rec, tag, shard_events=6000, shard_bytes=6_000_000, workers=14, timeout=1500, module="TraceCodec"):
     """Shard rec.events, run TraceCodec on each shard in parallel, return list of (event index, clause)."""
-    tdir = os.path.join(core.OUT, "traces")
+    tdir = os.path.join(core.OUT, "traces", str(os.getpid()))
     os.makedirs(tdir, exist_ok=True)
     shards, cur, size, start = [], [], 0, 0
     for i, ev in enumerate(rec.events):
